@@ -4,6 +4,7 @@ CONSTANTS
   NUin = 3
   NUout = 3
   Diag = 3
+  Part = 0
   Profile = "single"
 INIT Init
 NEXT Next
